@@ -10,8 +10,10 @@ import time
 import traceback
 
 VERIF = os.path.dirname(os.path.dirname(os.path.abspath(__file__)))
-EVIDENCE_DIR = os.path.join(VERIF, 'evidence')
-REPLAY_DIR = os.path.join(VERIF, 'replays')
+# PYVC_OUT redirects evidence and replay files (used only when trying seeded changes on scratch copies in parallel)
+_OUT = os.environ.get('PYVC_OUT', VERIF)
+EVIDENCE_DIR = os.path.join(_OUT, 'evidence')
+REPLAY_DIR = os.path.join(_OUT, 'replays')
 KNOWN = os.path.join(VERIF, 'known_findings.json')
 
 _TASKS = {}
@@ -31,7 +33,15 @@ def _worker(args):
     t = _TASKS[tid]
     t0 = time.time()
     try:
+        from . import framescan
+        framescan.take_executed()
         out = t.run(tier)
+        out['results'] = list(out.get('results', []))
+        ex = framescan.take_executed()
+        if ex and getattr(t, 'frame_prop', None) is not False:
+            from .tasks import repo as _repo
+            prop = getattr(t, 'frame_prop', None) or t.name.split(':')[0].split('/')[0]
+            out['results'].extend(framescan.frame_results(prop, _repo(), ex))
         return {'task': t.name, 'results': out.get('results', []), 'functions': out.get('functions', []),
                 'notes': out.get('notes', []), 'bounded': out.get('bounded', []), 'seconds': time.time() - t0,
                 'error': out.get('error')}
@@ -109,7 +119,10 @@ class PropertyRun:
     def execute(self):
         outs = run_tasks(self.tasks, self.tier)
         results, functions, notes, bounded, crashes, errors = [], [], [], [], [], []
+        seen_frame = set()
         for o in outs:
+            o['results'] = [r for r in o['results'] if not (r.get('kind') == 'frame' and r.get('backend') == 'syntactic-frame-scan' and
+                                                            (r['obligation'] in seen_frame or seen_frame.add(r['obligation'])))]
             results.extend(o['results'])
             functions.extend(o['functions'])
             notes.extend(o['notes'])
